@@ -55,7 +55,7 @@ class C05(Prop):
     floors = {'quick': (100, 30), 'thorough': (2000, 500)}
     must_reach = ['abstract_dense_time_online_interpreter:AbstractDenseTimeOnlineInterpreter.update']
     quick_cases = 2500
-    thorough_cases = 60000
+    thorough_cases = 250000
     shrink_data = False
 
     def gen(self, rng, ctx):
